@@ -548,7 +548,7 @@ func (vc *VC) memOf(st *State, s Sort) string {
 			vc.assert(sEq(app("select", m, r), app("select", pm, r)))
 		}
 	}
-	if vc.monotoneSort(s) {
+	if vc.monotoneSort(s) && st.base.prev != nil {
 		vc.assertMonotone(m, vc.memOf(st.base.prev, s))
 	}
 	return m
